@@ -142,6 +142,30 @@ def beVal (bs : Bytes) : Nat := leVal bs.reverse
 def takeN (k : Nat) (bs : Bytes) : Option (Bytes × Bytes) :=
   if bs.length < k then none else some (bs.take k, bs.drop k)
 
+/-- one-pass implementation of `takeN` for compiled code (`takeN` itself measures the whole
+remaining input at every read, which is quadratic on a 65000-byte datagram) -/
+def takeNFast : Nat → Bytes → Option (Bytes × Bytes)
+  | 0, bs => some ([], bs)
+  | _ + 1, [] => none
+  | k + 1, b :: bs =>
+    match takeNFast k bs with
+    | some (x, r) => some (b :: x, r)
+    | none => none
+
+@[csimp] theorem takeN_eq_takeNFast : @takeN = @takeNFast := by
+  funext k bs
+  induction k generalizing bs with
+  | zero => simp [takeN, takeNFast]
+  | succ k ih =>
+    cases bs with
+    | nil => simp [takeN, takeNFast]
+    | cons b bs =>
+      have h := ih bs
+      unfold takeN at h
+      unfold takeN takeNFast
+      rw [← h]
+      by_cases hk : bs.length < k <;> simp [hk]
+
 def readByte : Bytes → Option (Nat × Bytes)
   | [] => none
   | b :: r => some (b.toNat, r)
